@@ -66,6 +66,56 @@ fn main() {
         let c = p.wait_timeout(Duration::from_millis(0)).unwrap();
         if a != Some(ExitStatus::Undetermined) || b != a || c != a || p.pid().is_some() { fail(format!("a child reaped behind the library's back: poll {:?}, wait {:?}, wait_timeout {:?}, pid {:?}; expected Undetermined every time and no pid", a, b, c, p.pid())); }
     }
+    // ---- a detached handle still tells the truth: the library itself never reaps a child whose handle is alive, whatever else is
+    // started in the meantime
+    for (how, script, want) in [(0, "exit 7", ExitStatus::Exited(7)), (1, "exit 42", ExitStatus::Exited(42)), (2, "kill -USR1 $$; sleep 5", ExitStatus::Signaled(libc::SIGUSR1 as u8)), (3, "exit 0", ExitStatus::Exited(0))] {
+        checked += 1;
+        let mut a = if how == 3 { Popen::create(&["sh", "-c", script], PopenConfig { detached: true, ..Default::default() }).unwrap() } else { let mut a = sh(script); a.detach(); a };
+        let apid = a.pid().unwrap();
+        // wait until it has terminated, without reaping it
+        unsafe { let mut si: libc::siginfo_t = std::mem::zeroed(); libc::waitid(libc::P_PID, apid as libc::id_t, &mut si, libc::WEXITED | libc::WNOWAIT); }
+        // unrelated activity in between
+        for _ in 0..2 { let mut b = sh("true"); b.wait().unwrap(); }
+        let mut other = sh("true"); other.detach(); drop(other);
+        let st = match how { 0 | 3 => a.wait().ok(), 1 => a.poll(), _ => a.wait_timeout(Duration::from_secs(5)).unwrap() };
+        if st != Some(want) { fail(format!("a detached child that ended with {:?} while other children were started and reaped is reported as {:?}", want, st)); }
+    }
+    // ---- a blocking wait() disturbed by a signal handler (no SA_RESTART): it may fail with EINTR, it may carry on, but a status it
+    // reports is the true one, the child has really ended by then, and it stays
+    {
+        checked += 1;
+        extern "C" fn on_usr1(_: libc::c_int) {}
+        unsafe {
+            let mut sa: libc::sigaction = std::mem::zeroed();
+            sa.sa_sigaction = on_usr1 as usize;
+            sa.sa_flags = 0;
+            libc::sigaction(libc::SIGUSR1, &sa, std::ptr::null_mut());
+        }
+        let me = unsafe { libc::pthread_self() } as usize;
+        let stop = std::sync::Arc::new(std::sync::atomic::AtomicBool::new(false));
+        let stop2 = stop.clone();
+        let pinger = std::thread::spawn(move || { while !stop2.load(std::sync::atomic::Ordering::SeqCst) { std::thread::sleep(Duration::from_millis(30)); unsafe { libc::pthread_kill(me as libc::pthread_t, libc::SIGUSR1); } } });
+        let mut p = sh("sleep 0.6; exit 7");
+        let pid = p.pid().unwrap();
+        let mut rounds = 0;
+        loop {
+            rounds += 1;
+            match p.wait() {
+                Ok(st) => {
+                    let alive = unsafe { libc::kill(pid as i32, 0) } == 0 && std::fs::read_to_string(format!("/proc/{}/stat", pid)).map(|s| !s.contains(") Z ")).unwrap_or(false);
+                    if st != ExitStatus::Exited(7) || alive { fail(format!("wait() disturbed by signal handlers returned {:?} after {} calls (child still running: {}); the child exits with 7 after 0.6 s", st, rounds, alive)); }
+                    if p.poll() != Some(st) || p.wait().ok() != Some(st) || p.pid().is_some() { fail(format!("status {:?} reported by a disturbed wait() is not final: poll {:?}, pid {:?}", st, p.poll(), p.pid())); }
+                    break;
+                }
+                Err(_) => { if p.pid() != Some(pid) { fail("a failed wait() dropped the pid of a live child".into()); break; } }
+            }
+            if rounds > 1000 { fail("wait() disturbed by signal handlers never succeeds".into()); break; }
+        }
+        stop.store(true, std::sync::atomic::Ordering::SeqCst);
+        let _ = pinger.join();
+        unsafe { libc::signal(libc::SIGUSR1, libc::SIG_DFL); }
+        let _ = p.kill(); let _ = p.wait();
+    }
     println!("{} children checked, {} mismatches", checked, bad);
     if bad > 0 { std::process::exit(1); }
     println!("ok");
